@@ -701,7 +701,7 @@ class StartAnyProcess:
     """'start ... in OPERATION only'; unknown strategy INCORRECT_PARAMETERS; every escaping exception is an RPCError
     (start_process is inlined: the namespec passed is the one of a process found in the Context)"""
     raises = ('RPCError',)
-    types = {'wait': 'bool', 'extra_args': 'str', 'regex': 'str'}
+    types = {'wait': 'bool', 'extra_args': 'str', 'regex': 'str', 'namespec': 'Optional[str]'}
     type_variants = [{'strategy': 'str'}, {'strategy': 'int'}, {'strategy': 'bool'}, {'strategy': 'float'},
                      {'strategy': 'List[str]'}]
     inline = ['rpcinterface:RPCInterface.start_process']
